@@ -639,26 +639,34 @@ func r33ColumnOrder(c *core.Ctx) {
 			continue
 		}
 		info := f.Pkg.TypesInfo
+		// one pass over t.columns, or several passes each building one list (names, placeholders): every loop of the
+		// function ranges over t.columns itself
 		var loop *ast.RangeStmt
+		var loops []*ast.RangeStmt
 		nloops := 0
 		ast.Inspect(f.Decl.Body, func(n ast.Node) bool {
 			if r, ok := n.(*ast.RangeStmt); ok {
 				nloops++
 				if fv := core.FieldOf(info, r.X); fv != nil && fv.Name() == "columns" {
-					loop = r
+					loops = append(loops, r)
+					if loop == nil {
+						loop = r
+					}
 				}
 			}
 			return true
 		})
 		sorted := len(core.CallsIn(info, f.Decl, "sort.Slice", "sort.Strings", "slices.Sort", "slices.Reverse", "sort.Sort", "slices.SortFunc")) > 0
-		ok := loop != nil && nloops == 1 && !sorted
-		// every append in the loop appends to a slice in iteration order (no prepend: first arg is the slice itself)
+		ok := loop != nil && nloops == len(loops) && !sorted
+		// every append in a loop appends to a slice in iteration order (no prepend: first arg is the slice itself)
 		if ok {
-			for _, call := range core.BuiltinCallsIn(info, loop.Body, "append") {
-				path := pathTo(loop.Body, call)
-				if len(path) >= 2 {
-					if as, isAs := path[len(path)-2].(*ast.AssignStmt); !isAs || !core.SameObj(info, as.Lhs[0], call.Args[0]) {
-						ok = false
+			for _, lp := range loops {
+				for _, call := range core.BuiltinCallsIn(info, lp.Body, "append") {
+					path := pathTo(lp.Body, call)
+					if len(path) >= 2 {
+						if as, isAs := path[len(path)-2].(*ast.AssignStmt); !isAs || !core.SameObj(info, as.Lhs[0], call.Args[0]) {
+							ok = false
+						}
 					}
 				}
 			}
@@ -669,41 +677,49 @@ func r33ColumnOrder(c *core.Ctx) {
 			// (as an enclosing `if name != gcolumn` or an earlier `if name == gcolumn { continue }`: in both forms
 			// the only fact that holds at the appends is that the column is not the geometry column)
 			skipOK := true
-			apps := core.BuiltinCallsIn(info, loop.Body, "append")
-			if len(apps) < 2 {
+			notGeom := regexp.MustCompile(`^(\w+\.name(==|!=)\w+\.gcolumn|\w+\.gcolumn(==|!=)\w+\.name)$`)
+			napps := 0
+			var namesLoop *ast.RangeStmt
+			var namesSlice ast.Expr
+			for _, lp := range loops {
+				for _, app := range core.BuiltinCallsIn(info, lp.Body, "append") {
+					napps++
+					if len(app.Args) == 2 {
+						if fv := core.FieldOf(info, app.Args[1]); fv != nil && fv.Name() == "name" {
+							namesLoop, namesSlice = lp, app.Args[0]
+						}
+					}
+					facts := enclosingFacts(lp.Body, app)
+					if len(facts) != 1 {
+						skipOK = false
+						continue
+					}
+					m := notGeom.FindStringSubmatch(facts[0].expr)
+					if m == nil {
+						skipOK = false
+						continue
+					}
+					op := m[2] + m[3]
+					if (op == "!=") != facts[0].val {
+						skipOK = false
+					}
+				}
+			}
+			if napps < 2 || namesLoop == nil {
 				skipOK = false
 			}
-			notGeom := regexp.MustCompile(`^(\w+\.name(==|!=)\w+\.gcolumn|\w+\.gcolumn(==|!=)\w+\.name)$`)
-			for _, app := range apps {
-				facts := enclosingFacts(loop.Body, app)
-				if len(facts) != 1 {
-					skipOK = false
-					continue
-				}
-				m := notGeom.FindStringSubmatch(facts[0].expr)
-				if m == nil {
-					skipOK = false
-					continue
-				}
-				op := m[2] + m[3]
-				if (op == "!=") != facts[0].val {
-					skipOK = false
-				}
-			}
+			// the geometry column is appended to the list of names after the loop that fills it
 			lastOK := false
-			seenLoop := false
-			for _, s := range f.Decl.Body.List {
-				if s == ast.Stmt(loop) {
-					seenLoop = true
-					continue
-				}
-				if !seenLoop {
-					continue
-				}
-				if as, isAs := s.(*ast.AssignStmt); isAs && len(as.Rhs) == 1 {
-					if call, isCall := as.Rhs[0].(*ast.CallExpr); isCall && core.IsBuiltinCall(info, call, "append") && len(call.Args) == 2 {
-						if fv := core.FieldOf(info, call.Args[1]); fv != nil && fv.Name() == "gcolumn" {
-							lastOK = true
+			if namesLoop != nil {
+				for _, s := range f.Decl.Body.List {
+					if s.Pos() < namesLoop.End() {
+						continue
+					}
+					if as, isAs := s.(*ast.AssignStmt); isAs && len(as.Rhs) == 1 {
+						if call, isCall := as.Rhs[0].(*ast.CallExpr); isCall && core.IsBuiltinCall(info, call, "append") && len(call.Args) == 2 && core.SameObj(info, call.Args[0], namesSlice) {
+							if fv := core.FieldOf(info, call.Args[1]); fv != nil && fv.Name() == "gcolumn" {
+								lastOK = true
+							}
 						}
 					}
 				}
